@@ -187,6 +187,8 @@ class Memory(Backend):
         expire = time.time() + expire if expire else None
         if expire is None and key in self.store:
             expire, _ = self.store[key]
+            if expire is not None and expire <= time.time():
+                expire = None
         self.store[key] = (expire, copy(value))
         self.store.move_to_end(key)
         if len(self.store) > self.size:
